@@ -1188,6 +1188,15 @@ int applyRewrite(int kind, std::vector<Block>& deck, vh::Rng& rng) {
         size_t i = rng.below(lst.size());
         size_t j = i + 1 + rng.below(std::min<size_t>(lst.size() - i, 6));
         if (j > lst.size()) j = lst.size();
+        // The run must begin and end at a keyword boundary.  The injected unknown-keyword line is not
+        // a keyword: behind a keyword that can complete (unknown size) it is read as record text and
+        // silently dropped when the next keyword line arrives - but a file that ends inside such text
+        // is "Input file ended inside a record." since d37f2f297, and as the first line of a file it is
+        // an unknown keyword (Props/C01 include_inline: INCLUDE and the content in place agree exactly
+        // when the content ends at a keyword boundary).
+        while (j > i && lst[j - 1].cls == "FAULT") --j;
+        while (i < j && lst[i].cls == "FAULT") ++i;
+        if (j <= i) break;
         // a glued first line (nothing else can happen for whole blocks) keeps its block together anyway
         Block inc; inc.name = "INCLUDE"; inc.opaque = true; inc.isInclude = true; inc.cls = "INCLUDE";
         inc.children.assign(lst.begin() + (long) i, lst.begin() + (long) j);
